@@ -614,9 +614,14 @@ def gibbs_joint(rec, ctx=None):
         J = JointDistribution(*_perm(rec, [y, x, d, s]))(y=yobs)
     elif shape == "x_d_lmrf":   # LMRF prior with scale 1/d, fixed noise
         d = Gamma(1.0, 1e-1, name="d")
-        x = LMRF(0, scale=lambda d: 1 / d, geometry=n, name="x")
+        loc_ = 0
+        if rec.get("lmrf_loc"):
+            loc_ = np.array([0.6 * (-1) ** i for i in range(n)]) if n % 2 == 0 else np.array([0.6, -0.3, -0.3] + [0.0] * (n - 3))
+        x = LMRF(loc_, scale=lambda d: 1 / d, geometry=n, name="x")     # (a location vector whose entries SUM to zero)
         y = Gaussian(mk_model()(x), 0.3, name="y")
         J = JointDistribution(*_perm(rec, [y, x, d]))(y=yobs)
+        if rec.get("lmrf_loc"):
+            return J, {"A": A, "y": yobs, "probes": probes, "lmrf_loc": np.asarray(loc_, float)}
     elif shape == "x_d_reg":    # implicit nonnegativity-regularised Gaussian prior with precision d (Regularized-Gaussian/Gamma pair)
         d = Gamma(1.0, 1e-1, name="d")
         x = RegularizedGaussian(np.zeros(n), prec=lambda d: d, constraint="nonnegativity", name="x")
